@@ -433,6 +433,84 @@ fn explore<T: Real>(pk: PK, seeds: &[usize], cap: usize, max_depth: usize, state
     Some(FsmResult { rep, states: seen.len() as u64, transitions, depth_completed, closure, cache_base_transitions: cache_base, multi_behaviour_keys: multi, pool, requests: requests.iter().map(req_name).collect() })
 }
 
+
+/// Long histories: ONE planner asked for every length of a sweep, each returned transform verified (I1-I3 on a light
+/// alphabet with closed-form references, I5 NaN-poisoned exact scratch). A sweep visits planner states that no short
+/// history over a pool reaches (hundreds of cached lengths); every prefix of the sweep is a state.
+fn sweep_history<T: Real>(pk: PK, order: &[Req], label: &str, seed: u64, rep: &mut Report) -> (u64, u64) {
+    let mut pl = match AnyPlanner::<T>::new(pk) {
+        Some(p) => p,
+        None => return (0, 0),
+    };
+    let mut transitions = 0u64;
+    let mut rewritten = 0u64;
+    let mut prev: Vec<Req> = Vec::new();
+    for &(n, d) in order {
+        vh::record(true);
+        let r = plan_catch(&mut pl, n, d);
+        let reports = vh::take_plan_events();
+        vh::record(false);
+        transitions += 1;
+        if reports.iter().any(|p| p.contains("CacheBase") && !p.contains("radixes: []")) {
+            rewritten += 1;
+        }
+        let tail: Vec<String> = prev.iter().rev().take(3).rev().map(req_name).collect();
+        let key = format!("C10|pk={}|T={}|sweep={}|at={}|after=..{}", pk.name(), T::NAME, label, req_name(&(n, d)), tail.join(","));
+        prev.push((n, d));
+        let f = match r {
+            Ok(f) => f,
+            Err(m) => {
+                rep.violate(key, format!("plan_fft({}, {}) panicked in the {} sweep (all earlier lengths of the sweep already planned on this planner): {}", n, dir_name(d), label, m), Json::Null);
+                continue;
+            }
+        };
+        if f.len() != n || f.fft_direction() != d {
+            rep.violate(key, format!("I1: in the {} sweep the request ({}, {}) returned ({}, {})", label, n, dir_name(d), f.len(), dir_name(f.fft_direction())), Json::Null);
+            continue;
+        }
+        if n == 0 {
+            continue;
+        }
+        // light alphabet with closed-form spectra: 3 impulses and the closed-form STRUCT members
+        let rf = Ref::new(n);
+        let b = bound::<T>(n);
+        let mut cases: Vec<(String, Vec<C<T>>, Vec<(DD, DD)>, f64)> = Vec::new();
+        for j in [0usize, n / 2, n - 1] {
+            cases.push((format!("impulse:re:{}", j), from_c64::<T>(&inputs::impulse(n, j, false)), rf.impulse_col(j, false, d), 0.0));
+        }
+        for inp in inputs::structured(&rf, seed, 20, true) {
+            if inp.name == "zero" {
+                continue;
+            }
+            let x64 = inputs::round_to::<T>(&inp.x);
+            if let Some((rr, slack)) = inputs::reference::<T>(&rf, &inp, &x64, d, false) {
+                cases.push((inp.name.clone(), from_c64::<T>(&x64), rr, slack));
+            }
+        }
+        'cases: for (name, x, want, slack) in &cases {
+            for e in [Entry::InPlace, Entry::Immut, Entry::OutOfPlace] {
+                let nan = C::new(T::from64(f64::NAN), T::from64(f64::NAN));
+                let scr = vec![nan; e.scratch_len(f.as_ref())];
+                let oi = if e.has_output() { vec![nan; x.len()] } else { vec![] };
+                match call(f.as_ref(), e, x, &oi, &scr).out {
+                    None => {
+                        rep.violate(key.clone(), format!("in the {} sweep the transform for ({}, {}) rejected a well-shaped call with exactly the advertised scratch ({} on {})", label, n, dir_name(d), e.name(), name), Json::Null);
+                        break 'cases;
+                    }
+                    Some(o) => {
+                        let (err, rn) = l2_error(&o, want);
+                        if !(err <= (b + slack) * rn) {
+                            rep.violate(key.clone(), format!("in the {} sweep the transform returned for ({}, {}) fails C01/C02 ({} on {}, NaN-filled scratch): relative error {:e} > {:e}", label, n, dir_name(d), e.name(), name, err / rn.max(1e-300), b + slack), Json::Null);
+                            break 'cases;
+                        }
+                    }
+                }
+            }
+        }
+    }
+    (transitions, rewritten)
+}
+
 fn seeds_for(pk: PK, is32: bool) -> Vec<usize> {
     match (pk, is32) {
         // radix chains with >= 2 stages over a butterfly base, a Rader base and a Bluestein base
@@ -545,6 +623,52 @@ pub fn run(ctx: &Ctx) -> i32 {
             }
         }
     }
+    // ---- long histories (sweeps)
+    let sw_n: usize = t.pick(640, 3072);
+    let fwd = FftDirection::Forward;
+    let inv = FftDirection::Inverse;
+    let orders: Vec<(&str, Vec<Req>)> = vec![
+        ("descending", (1..=sw_n).rev().map(|n| (n, fwd)).collect()),
+        ("ascending-inverse", (1..=sw_n).map(|n| (n, inv)).collect()),
+        ("descending-alternating-directions", (1..=sw_n).rev().flat_map(|n| if n % 2 == 0 { vec![(n, fwd), (n, inv)] } else { vec![(n, inv), (n, fwd)] }).collect()),
+        ("large-first-then-divisors", {
+            // highly composite / chain-heavy lengths first, then everything else descending
+            let mut big: Vec<usize> = (1..=sw_n).filter(|n| n % 96 == 0 || n % 125 == 0 || n % 243 == 0).collect();
+            big.reverse();
+            let rest: Vec<usize> = (1..=sw_n).rev().filter(|n| !big.contains(n)).collect();
+            big.into_iter().chain(rest).map(|n| (n, fwd)).collect()
+        }),
+    ];
+    let mut sjobs: Vec<(PK, bool, usize)> = Vec::new();
+    for pk in PK::DISTINCT {
+        for is32 in [true, false] {
+            for oi in 0..orders.len() {
+                sjobs.push((pk, is32, oi));
+            }
+        }
+    }
+    let seed = ctx.seed;
+    let sparts = par_map(&sjobs, |_, &(pk, is32, oi)| {
+        let mut r = Report::new();
+        let (tr, rw) = if is32 { sweep_history::<f32>(pk, &orders[oi].1, orders[oi].0, seed, &mut r) } else { sweep_history::<f64>(pk, &orders[oi].1, orders[oi].0, seed, &mut r) };
+        r.states = tr;
+        r.transitions = tr;
+        r.evaluations = tr;
+        r.distinct_nontrivial = tr;
+        (r, rw, pk)
+    });
+    let mut sweep_transitions = 0u64;
+    let mut sweep_rewritten = 0u64;
+    for (r, rw, pk) in sparts {
+        sweep_transitions += r.transitions;
+        if pk == PK::Avx {
+            sweep_rewritten += rw;
+        }
+        rep.merge(r);
+    }
+    rep.set("sweep_histories", Json::Arr(orders.iter().map(|o| Json::Str(format!("{} ({} requests)", o.0, o.1.len()))).collect()));
+    rep.set("sweep_transitions", sweep_transitions);
+    rep.set("sweep_avx_transitions_rewritten_onto_a_cached_base", sweep_rewritten);
     rep.set("closure_searches_run", closures_run as i64);
     rep.set("closure_searches_closed", closures_reached as i64);
     if avx_present && avx_cache_base == 0 {
@@ -554,9 +678,10 @@ pub fn run(ctx: &Ctx) -> i32 {
     rep.sample(table.first().cloned().unwrap_or(Json::Null));
     rep.set("searches", Json::Arr(table));
     rep.rule = format!(
-        "per planner {{scalar,sse,avx}} x {{f32,f64}}: breadth-first search over the REAL planner's reachable cache states; requests = a closed pool (seeds with multi-stage radix chains / Rader / Bluestein bases, closed under every stage and inner length the plan reports name; forward for all, inverse for half) ; (a) the whole pool: all histories up to depth {d}; (b) a sub-pool of {cr} requests: until no new state appears, i.e. the complete reachable state space over that sub-pool (closure_reached per search); a state is deduplicated by its canonical form (sorted cache keys with scratch lengths and output-bit hash of each cached instance); invariants on every transition: I1 len/direction, I2 C01 on impulses, I3 C02 on dense vectors, I4 C06 between the instances the planner returned for the two directions, I5 exact NaN-poisoned scratch, I6 a second planner fed the same history is in the same state, I7 instances survive drop(planner). Every transition is an execution of the implementation (traces_validated_against_impl = transitions).",
+        "per planner {{scalar,sse,avx}} x {{f32,f64}}: breadth-first search over the REAL planner's reachable cache states; requests = a closed pool (seeds with multi-stage radix chains / Rader / Bluestein bases, closed under every stage and inner length the plan reports name; forward for all, inverse for half) ; (a) the whole pool: all histories up to depth {d}; (b) a sub-pool of {cr} requests: until no new state appears, i.e. the complete reachable state space over that sub-pool (closure_reached per search); (c) four long sweep histories per planner and type (descending, ascending-inverse, descending with alternating directions, chain-heavy lengths first) over every length up to {sw}, every request of the sweep verified (I1, C01/C02 on impulses and closed-form vectors through three entry points with NaN-filled exact scratch); a state is deduplicated by its canonical form (sorted cache keys with scratch lengths and output-bit hash of each cached instance); invariants on every transition: I1 len/direction, I2 C01 on impulses, I3 C02 on dense vectors, I4 C06 between the instances the planner returned for the two directions, I5 exact NaN-poisoned scratch, I6 a second planner fed the same history is in the same state, I7 instances survive drop(planner). Every transition is an execution of the implementation (traces_validated_against_impl = transitions).",
         d = depth,
-        cr = closure_r
+        cr = closure_r,
+        sw = sw_n
     );
     rep.exhaustive = false;
     rep.set("exhaustive_within", format!("all request histories over the wide pool up to depth {}; ALL request histories of any length over each closure sub-pool of {} requests (see per-search 'closure_reached')", depth, closure_r));
